@@ -138,7 +138,11 @@ def case_strategy(draw):
     # a second, different scan that OVERLAPS the first on the same handle (two lazy generators consumed alternately)
     f2 = draw(st.sampled_from(fields))
     flt2 = draw(st.one_of(st.none(), tbl.condition_for(f2["type"], [r.get(f2["name"]) for r in rows]).map(lambda c: {f2["name"]: c})))
-    return {"kind": "filter", "fields": fields, "files": files, "filter": flt, "columns": cols_proj, "filter2": flt2}
+    # the container type in which in / not_in value sets are handed over (the reference always sees the list)
+    from ..lib import CONTAINERS
+
+    return {"kind": "filter", "fields": fields, "files": files, "filter": flt, "columns": cols_proj, "filter2": flt2,
+            "container": draw(st.sampled_from(["list", "list", "list"] + CONTAINERS))}
 
 
 def check_case(case):
@@ -198,9 +202,11 @@ def check_case(case):
         results = {}
         for api, v in COMBOS:
             try:
-                results[(api, v)] = rows_multiset(run_read(t, api, flt, columns, v))
+                results[(api, v)] = rows_multiset(run_read(t, api, flt, columns, v, container=case.get("container")))
             except Exception as e:  # noqa
                 results[(api, v)] = e
+        if case.get("container") not in (None, "list") and any(isinstance(c_, tuple) and str(c_[0]).lower() in tbl.IN_OPS for c_ in flt.values()):
+            out["labels"].append(f"in-container:{case['container']}")
         returned = {k: r for k, r in results.items() if not isinstance(r, Exception)}
         raised = {k: r for k, r in results.items() if isinstance(r, Exception)}
         tag = "nan" if (touched_nan or tbl.has_nan(list(flt.values()))) else ("null" if touched_null else "plain")
